@@ -47,6 +47,9 @@ type c04Case struct {
 	DataKey int        `json:"datakey"` // selects the payload pattern
 	Key     int        `json:"key,omitempty"` // which of the station's keys the client was built with (prefix tags are encrypted to it)
 	Again   int        `json:"again,omitempty"` // how many more connections the same client makes on the same registration afterwards
+	Strays  int        `json:"strays,omitempty"` // connections of other peers handled on the same phantom just before: they send StrayLen bytes of junk and hang up
+	StrayLen int       `json:"stray_len,omitempty"`
+	Dst16   bool       `json:"dst16,omitempty"` // the original destination is handed over in the 16-byte form of an IPv4 address (what the production listener builds), not the 4-byte form the registration holds
 	SlowMs  int        `json:"slow_ms,omitempty"` // the covert starts reading only after this many milliseconds (the client has long sent everything and closed)
 }
 
@@ -79,6 +82,15 @@ func c04Run(e *aEnv, c c04Case, waitLimit time.Duration) (res c04Result) {
 		e.rm.AddRegistration(or)
 	}
 	e.rm.AddRegistration(reg)
+	// other peers' connections on the same phantom, handled just before the client's
+	for i := 0; i < c.Strays; i++ {
+		junk := aPayload(c.DataKey+i, c.StrayLen, "stray")
+		sc := vconn.New(vconn.Script{Reads: []vconn.Step{{Data: vh.Hex(junk)}}, End: "eof", Remote: "203.0.113.99:4444"})
+		if ok, pan, _ := e.aRunHandler(sc, c04Dst(c), 30*time.Second); pan != nil || !ok {
+			return c04Result{key: "harness", msg: fmt.Sprintf("stray connection %d: returned=%v panic=%v", i, ok, pan)}
+		}
+		cls["after-stray-connections"] = true
+	}
 	// the same client may connect again on the same registration (it stays usable for 6 hours
 	// once it has carried a connection): every connection is judged like the first
 	for round := 0; ; round++ {
@@ -174,7 +186,10 @@ func c04Once(e *aEnv, c c04Case, reg *cj.DecoyRegistration, cls map[string]bool,
 		midSeen = true
 	})
 	defer e.cov.SetOnReply(nil)
-	ok, pan, _ := e.aRunHandler(conn, aPhantom(0, c.Reg.V6), 30*time.Second)
+	if c.Dst16 && !c.Reg.V6 {
+		cls["destination-in-16-byte-form"] = true
+	}
+	ok, pan, _ := e.aRunHandler(conn, c04Dst(c), 30*time.Second)
 	defer func() { res.waited = conn.TimedOutWaiting }()
 	for k := range cls {
 		res.classes = append(res.classes, k)
@@ -269,6 +284,15 @@ func c04Once(e *aEnv, c c04Case, reg *cj.DecoyRegistration, cls map[string]bool,
 		return res
 	}
 	return res
+}
+
+// c04Dst is the original destination handed to the handler for the case's phantom.
+func c04Dst(c c04Case) net.IP {
+	ph := aPhantom(0, c.Reg.V6)
+	if c.Dst16 && !c.Reg.V6 {
+		return net.IPv4(ph[0], ph[1], ph[2], ph[3]) // 16-byte form, as getOriginalDst builds it
+	}
+	return ph
 }
 
 func c04Diff(got, want []byte) string {
@@ -384,6 +408,11 @@ func c04Gen(rt *rapid.T) c04Case {
 	c.DataKey = rapid.IntRange(0, 1000).Draw(rt, "datakey")
 	c.Key = rapid.IntRange(0, 1).Draw(rt, "stationkey")
 	c.Again = rapid.SampledFrom([]int{0, 0, 0, 1, 2}).Draw(rt, "again")
+	c.Dst16 = rapid.Bool().Draw(rt, "dst16")
+	if rapid.IntRange(0, 3).Draw(rt, "strays") == 0 {
+		c.Strays = rapid.IntRange(1, 4).Draw(rt, "nstrays")
+		c.StrayLen = rapid.SampledFrom([]int{1, 31, 100, 1000, 5000}).Draw(rt, "straylen")
+	}
 	if rapid.IntRange(0, 11).Draw(rt, "slowcovert") == 0 {
 		// the client uploads, closes at once; the covert only starts reading later
 		c.SlowMs = rapid.SampledFrom([]int{40, 150}).Draw(rt, "slowms")
@@ -440,9 +469,9 @@ func c04Gen(rt *rapid.T) c04Case {
 }
 
 func TestVerif_C04_random(t *testing.T) {
-	rec := vh.NewRec("C04", "random", "rapid-generated cases: transport variant x secret x family x early-data size 0..64 KiB x reply size x 0-20 cuts (biased to the flight) x virtual pauses (< 4.5 s in total) x 0-4 other registrations (other secrets, all transports, same/other phantom) x 0-2 further connections of the same client on the same registration x (1 in 12) an upload of up to 1 MiB followed by an immediate close towards a covert that starts reading 40-150 ms later; non-trivial as in 'cuts' or early data sharing a segment with the tag; distinct by case")
+	rec := vh.NewRec("C04", "random", "rapid-generated cases: transport variant x secret x family x early-data size 0..64 KiB x reply size x 0-20 cuts (biased to the flight) x virtual pauses (< 4.5 s in total) x 0-4 other registrations (other secrets, all transports, same/other phantom) x 0-4 stray connections (junk, then close) handled on the same phantom just before x original destination in the 4-byte or the 16-byte form of an IPv4 address x 0-2 further connections of the same client on the same registration x (1 in 12) an upload of up to 1 MiB followed by an immediate close towards a covert that starts reading 40-150 ms later; non-trivial as in 'cuts' or early data sharing a segment with the tag; distinct by case")
 	defer rec.Flush()
-	rec.Require("cut-inside-tag", "cut-inside-early-data", "early-data-with-tag-segment", "transport:Min", "transport:Prefix", "reconnects", "large-upload-to-late-covert")
+	rec.Require("cut-inside-tag", "cut-inside-early-data", "early-data-with-tag-segment", "transport:Min", "transport:Prefix", "reconnects", "large-upload-to-late-covert", "after-stray-connections", "destination-in-16-byte-form")
 	defer aSilenceStdout()()
 	e := c04Env(t)
 	if p := vh.ReplayFile(); p != "" {
